@@ -160,18 +160,26 @@ mod interpolate {
             assert!(expand_agrees(b"a$1b$$"));
             assert!(expand_agrees(b"$n$x$"));
         }
+        /// native bounded enumeration (not Kani): the whole expansion loop of `interpolate` against the
+        /// library's documented expansion, every template over {$, }, 1, n, a, _, 0xFF, ' '} up to 5 bytes
+        /// (braced forms `${..}` are the subject of the find_cap_ref harnesses and one known finding)
         #[test]
         #[ignore]
-        fn exhaustive_debug() {
-            // debugging aid for the harness author: NOT a registered check
-            let alpha: [u8; 8] = [b'$', b'{', b'}', b'1', b'n', b'a', b'_', 0xFF];
-            for a in alpha { for b in alpha { for c in alpha {
-                let t = [a, b, c];
-                for n in 0..=3 {
-                    if t[..n].contains(&b'{') { continue; }
-                    assert!(expand_agrees(&t[..n]), "disagree on {:?}", &t[..n]);
+        fn exhaustive_native() {
+            let alpha: [u8; 8] = [b'$', b'}', b'1', b'n', b'a', b'_', 0xFF, b' '];
+            let mut t = [0u8; 5];
+            for n in 0..=5usize {
+                let total = 8usize.pow(n as u32);
+                for code in 0..total {
+                    let mut c = code;
+                    for i in 0..n { t[i] = alpha[c % 8]; c /= 8; }
+                    if !expand_agrees(&t[..n]) {
+                        println!("FAILING CASE interpolate template={:?}", String::from_utf8_lossy(&t[..n]));
+                        println!("VERIF_REPLAY_HEX={}", t[..n].iter().map(|b| format!("{:02x}", b)).collect::<String>());
+                        panic!("interpolate disagrees with the library expansion");
+                    }
                 }
-            }}}
+            }
         }
         #[test]
         fn replay() {
